@@ -255,6 +255,13 @@ add(Gram("f2", Level([Named("switch", "v", ["verbose"]), Cmds([Cmd(["cat"], Leve
 
 add(Gram("un", None, short_flags="n", names=("n", ["gr\u00f6\u00dfe", "new"], ["s\u00fcd"]), note="non-ASCII long name and command name"))
 
+_hr_token = Named("arg", "t", ["token"], arity="req")
+_hr_token.hidden = True
+add(Gram("hr", Level([Named("switch", "v", ["verbose"]), _hr_token]), short_flags="v", short_args="",
+         note="hidden required argument next to a switch (hidden shorts are not in the tokenizer's table)"))
+C01_GRAMMARS.append("hr")
+
+add(Gram("k6", None, short_flags="rps", names=("rps", ["rect", "point", "sw"], []), note="nested adjacent groups `--rect --point X Y`, repeated, next to a switch"))
 add(Gram("k5", None, short_flags="rs", short_args="w", names=("rsw", ["rect", "sw", "width"], []), note="switch, then optional adjacent group (flag + argument), then optional positional"))
 
 _hd_secret = Named("switch", "s", ["secret"])
